@@ -517,6 +517,32 @@ func newVersionIntact(r *Run, f *ssa.Function) bool {
 	return false
 }
 
+// branchCheckHelper: the call in newVersion of an unexported function of the package that compares other nodes'
+// branches inside a loop and returns an error (r.availableChildBranch(node, name) (string, error)) — the branch
+// checks of newVersion moved into a validating helper.
+func branchCheckHelper(f *ssa.Function) (*ssa.Call, *ssa.Function) {
+	for _, c := range calls(f) {
+		cc, ok := c.(*ssa.Call)
+		g := staticCallee(c)
+		if !ok || g == nil || g == f || g.Pkg != f.Pkg || len(g.Blocks) == 0 || g.Object() == nil || g.Object().Exported() || errResultIndex(g) < 0 {
+			continue
+		}
+		for _, b := range g.Blocks {
+			if _, set, _ := innermostLoop(g, b); set == nil {
+				continue
+			}
+			for _, in := range b.Instrs {
+				if bo, ok := in.(*ssa.BinOp); ok && (bo.Op == token.EQL || bo.Op == token.NEQ) {
+					if isFieldLoad(stripConv(bo.X), "nodeT", "branch") || isFieldLoad(stripConv(bo.Y), "nodeT", "branch") {
+						return cc, g
+					}
+				}
+			}
+		}
+	}
+	return nil, nil
+}
+
 func ruleHeadKeyFromChildBranch(r *Run) {
 	w := r.W
 	f := w.method("datastore", "repoManager", "newVersion")
@@ -524,7 +550,7 @@ func ruleHeadKeyFromChildBranch(r *Run) {
 		r.undecided("datastore.repoManager.newVersion", "anchor not found")
 		return
 	}
-	if !newVersionIntact(r, f) {
+	if hc, _ := branchCheckHelper(f); hc == nil && !newVersionIntact(r, f) {
 		return
 	}
 	// the value stored into the new node's branch
@@ -3654,11 +3680,15 @@ func ruleChildCheckAndInsertOneSection(r *Run) {
 		r.undecided("datastore.repoManager.newVersion", "anchor not found")
 		return
 	}
-	if !newVersionIntact(r, f) {
+	hcall, _ := branchCheckHelper(f)
+	if hcall == nil && !newVersionIntact(r, f) {
 		return
 	}
-	// the comparisons of a sister's branch with the new name
+	// the comparisons of a sister's branch with the new name (or the call of the helper that makes them)
 	var cmps []ssa.Instruction
+	if hcall != nil {
+		cmps = append(cmps, hcall)
+	}
 	for _, b := range f.Blocks {
 		for _, in := range b.Instrs {
 			bo, ok := in.(*ssa.BinOp)
@@ -8026,10 +8056,17 @@ func ruleInsertBehindBranchScan(r *Run) {
 		r.undecided("datastore.repoManager.newVersion", "anchor not found")
 		return
 	}
-	if !newVersionIntact(r, f) {
+	hcall, hfn := branchCheckHelper(f)
+	if hcall == nil && !newVersionIntact(r, f) {
 		return
 	}
-	isScanStart := func(in ssa.Instruction) bool {
+	var isScanStart func(in ssa.Instruction) bool
+	helperScans := false
+	isScanStart = func(in ssa.Instruction) bool {
+		// the call of a validating helper all of whose returns lie behind the start of one of the scans
+		if hcall != nil && in == ssa.Instruction(hcall) {
+			return helperScans
+		}
 		switch x := in.(type) {
 		case *ssa.Range:
 			return isFieldLoad(x.X, "dagT", "nodes")
@@ -8058,11 +8095,18 @@ func ruleInsertBehindBranchScan(r *Run) {
 		}
 		return false
 	}
+	if hfn != nil {
+		anyRet := func(x ssa.Instruction) bool { _, ok := x.(*ssa.Return); return ok }
+		helperScans = findPath(hfn, nil, isScanStart, anyRet, nil) == nil
+	}
 	nScan, nIns := 0, 0
 	for _, b := range f.Blocks {
 		for _, in := range b.Instrs {
 			if isScanStart(in) {
 				nScan++
+				if hcall != nil && in == ssa.Instruction(hcall) {
+					nScan++ // the helper holds both scans
+				}
 			}
 		}
 	}
